@@ -263,10 +263,17 @@ def _fault_case(args):
                 f"no fault fired, the task returned normally, but only "
                 f"{complete}/{len(outs)} complete outputs exist", seam=seam)
         allowed = set(ins) | set(outs)
-        for p in d.rglob("*"):
-            if p.is_file() and p not in allowed and not p.name.endswith(
-                    ".rtdc~"):
-                bad("stray-file", f"unexpected file {p.name}")
+        # anything else the task leaves behind is temporary data; it must
+        # not look like a dataset (".rtdc") unless it is a complete one
+        for p in d.rglob("*.rtdc"):
+            if p.is_file() and p not in allowed:
+                try:
+                    content_digest(p)
+                except BaseException as e:
+                    bad("partial-output",
+                        f"left-over file {p.name} has the dataset suffix "
+                        f"but is not loadable: {type(e).__name__}",
+                        seam=seam)
         status = res["status"]
         fired = bool(res["fired"])
     finally:
@@ -389,7 +396,8 @@ def run(ctx):
                 "kind[, second fault]); non-trivial = the fault actually "
                 "fired in the child; after each case inputs are hashed, each "
                 "output must be absent or loadable and equal to the "
-                "fault-free result, other files must be *.rtdc~",
+                "fault-free result; left-over files must not carry the "
+                "dataset suffix unless they are complete",
         "crossings_per_scenario": info,
         "output_path_cases": len(oitems),
         "outcomes": statuses,
